@@ -83,3 +83,28 @@ func LiteralString(r *fw.Rand) string {
 		return b.String()
 	}
 }
+
+
+// clusters are user-perceived characters made of several code points: a base with combining marks, emoji with skin
+// tone modifiers, emoji joined by zero-width joiners, conjuncts of Indic scripts, flags.
+var clusters = []string{"e\u0301", "a\u0308\u0323", "👍🏽", "👨\u200d👩\u200d👧\u200d👦", "कि", "क्ष", "กำ", "🇷🇼", "o\u0302\u0301", "\u200d", "\u0301", "x", "ب\u064e", "🏳️\u200d🌈", "1\ufe0f\u20e3"}
+
+// ClusterString returns a text of about n code points made of such clusters, so that a cut at a code point limit
+// falls inside a cluster (between a base and its marks, before a modifier, before or after a joiner).
+func ClusterString(r *fw.Rand, n int) string {
+	var b strings.Builder
+	count := 0
+	one := ""
+	if r.Chance(0.3) {
+		one = fw.Pick(r, clusters) // "zalgo" / joiner chains: one kind only
+	}
+	for count < n {
+		c := one
+		if c == "" {
+			c = fw.Pick(r, clusters)
+		}
+		b.WriteString(c)
+		count += len([]rune(c))
+	}
+	return b.String()
+}
